@@ -271,6 +271,51 @@ def h_plain_parity(ctx, what):
         same(algopy.sum(a, axis=1), np.sum(a, axis=1), 'sum(axis=1)')
         same(algopy.diag(a, 1), np.diag(a, 1), 'diag(a, 1)')
         same(algopy.diag(a[0], -1), np.diag(a[0], -1), 'diag(vector, -1)')
+    elif what == 'linear algebra of plain arrays':
+        import scipy.linalg
+        a = np.array([[4.0, 1.0, 0.5], [1.0, 3.0, -0.25], [0.5, -0.25, 2.0]])
+        r = np.array([[1.5, 2.0], [-0.5, 3.0], [0.25, 2.0]])
+        b = np.array([1.0, -2.0, 0.5])
+        for name, got, ref in (('qr_full', lambda: algopy.qr_full(r), lambda: scipy.linalg.qr(r)),
+                               ('qr', lambda: algopy.qr(r), lambda: np.linalg.qr(r)),
+                               ('lu', lambda: algopy.lu(a), lambda: scipy.linalg.lu(a)),
+                               ('eigh', lambda: algopy.eigh(a), lambda: np.linalg.eigh(a)),
+                               ('svd', lambda: algopy.svd(r), lambda: np.linalg.svd(r)),
+                               ('eig', lambda: algopy.eig(a + np.triu(a, 1)), lambda: np.linalg.eig(a + np.triu(a, 1)))):
+            try:
+                g, e = got(), ref()
+                ctx.fact(len(g) == len(e), '%s(ndarray): %d results == %d' % (name, len(g), len(e)))
+                for i, (gi, ei) in enumerate(zip(g, e)):
+                    same(gi, ei, '%s(ndarray)[%d]' % (name, i))
+            except Exception as ex:
+                ctx.fact(False, '%s(ndarray) raised %s: %s' % (name, type(ex).__name__, str(ex)[:80]))
+        for name, got, ref in (('cholesky', lambda: algopy.cholesky(a), lambda: np.linalg.cholesky(a)),
+                               ('inv', lambda: algopy.inv(a), lambda: np.linalg.inv(a)),
+                               ('det', lambda: algopy.det(a), lambda: np.linalg.det(a)),
+                               ('solve', lambda: algopy.solve(a, b), lambda: np.linalg.solve(a, b)),
+                               ('solve (matrix rhs)', lambda: algopy.solve(a, r), lambda: np.linalg.solve(a, r)),
+                               ('transpose', lambda: algopy.transpose(r), lambda: np.transpose(r)),
+                               ('trace', lambda: algopy.trace(a), lambda: np.trace(a)),
+                               ('dot', lambda: algopy.dot(a, r), lambda: np.dot(a, r)),
+                               ('dot (matrix, vector)', lambda: algopy.dot(a, b), lambda: np.dot(a, b)),
+                               ('outer', lambda: algopy.outer(b, r[:, 0]), lambda: np.outer(b, r[:, 0])),
+                               ('expm', lambda: algopy.expm(a / 4), lambda: scipy.linalg.expm(a / 4)),
+                               ('logdet', lambda: algopy.logdet(a), lambda: np.linalg.slogdet(a)[1]),
+                               ('tril', lambda: algopy.tril(a), lambda: np.tril(a)),
+                               ('triu', lambda: algopy.triu(a, 1), lambda: np.triu(a, 1)),
+                               ('reshape', lambda: algopy.reshape(r, (2, 3)), lambda: np.reshape(r, (2, 3))),
+                               ('tile', lambda: algopy.tile(b, 2), lambda: np.tile(b, 2)),
+                               ('real', lambda: algopy.real(a + 1j * a), lambda: np.real(a + 1j * a)),
+                               ('imag', lambda: algopy.imag(a + 2j * a), lambda: np.imag(a + 2j * a)),
+                               ('conjugate', lambda: algopy.conjugate(a + 2j * a), lambda: np.conjugate(a + 2j * a)),
+                               ('fft', lambda: algopy.fft.fft(b), lambda: np.fft.fft(b)),
+                               ('ifft', lambda: algopy.fft.ifft(b), lambda: np.fft.ifft(b)),
+                               ('symvec', lambda: algopy.symvec(a), lambda: np.array([4.0, 1.0, 0.5, 3.0, -0.25, 2.0])),
+                               ('vecsym', lambda: algopy.vecsym(np.array([4.0, 1.0, 0.5, 3.0, -0.25, 2.0])), lambda: a)):
+            try:
+                same(got(), ref(), '%s(ndarray)' % name)
+            except Exception as ex:
+                ctx.fact(False, '%s(ndarray) raised %s: %s' % (name, type(ex).__name__, str(ex)[:80]))
     else:
         raise KeyError(what)
 
@@ -449,7 +494,7 @@ def units(tier, seed):
         for (ls, rk, rs) in [((2,), 'utpm', ()), ((), 'utpm', (3,)), ((), 'ndarray', (3,)), ((1,), 'ndarray', (2, 1))]:
             add('compare/x%s %s %s%s, broadcasting, P=2' % (ls, cmpop, rk, rs), 'h_compare', cmpop=cmpop, rkind=rk, shape=ls, D=2, P=2, rshape=rs)
     add('max/D2,P2,n3', 'h_max', D=2, P=2, n=3)
-    for what in ('integer arguments of special functions', 'zeros and ones with NumPy dtypes', 'zeros / zeros_like with a polynomial prototype', 'modulus of a complex polynomial', 'prod and sum of plain arrays'):
+    for what in ('integer arguments of special functions', 'zeros and ones with NumPy dtypes', 'zeros / zeros_like with a polynomial prototype', 'modulus of a complex polynomial', 'prod and sum of plain arrays', 'linear algebra of plain arrays'):
         add('plain arguments/%s' % what, 'h_plain_parity', what=what)
     for fn in ('maximum', 'minimum'):
         add('%s of traced nodes/D2,P2' % fn, 'h_minmax_traced', fname=fn, D=2, P=2)
